@@ -155,7 +155,8 @@ nist_read_header (SF_PRIVATE *psf)
 	/* Determine sample encoding, start by assuming PCM. */
 	encoding = SF_FORMAT_PCM_U8 ;
 	if ((cptr = strstr (psf_header, "sample_coding -s")))
-	{	sscanf (cptr, "sample_coding -s%d %63s", &count, str) ;
+	{	str [0] = 0 ;
+		sscanf (cptr, "sample_coding -s%d %63s", &count, str) ;
 
 		if (strcmp (str, "pcm") == 0)
 		{	/* Correct this later when we find out the bitwidth. */
